@@ -61,6 +61,8 @@ type Ctx struct {
 	Only       int64 // when >= 0 run only the case with this sequence number (replay)
 
 	seq      int64
+	sub      int64
+	skipSub  map[[2]int64]bool
 	bulkNT   int64
 	curDesc  string
 	skip     map[int64]bool
@@ -131,18 +133,39 @@ func (c *Ctx) Begin(desc string) bool {
 	}
 	if c.cell != nil {
 		n := len(desc)
-		if n > cellSize-16 {
-			n = cellSize - 16
+		if n > cellSize-4200 {
+			n = cellSize - 4200
 		}
 		binary.LittleEndian.PutUint64(c.cell[0:], uint64(seq))
-		binary.LittleEndian.PutUint32(c.cell[8:], uint32(n))
-		copy(c.cell[12:], desc[:n])
+		binary.LittleEndian.PutUint64(c.cell[8:], 0)
+		binary.LittleEndian.PutUint32(c.cell[16:], uint32(n))
+		copy(c.cell[20:], desc[:n])
 	}
+	c.sub = 0
 	c.cur.Store(seq)
 	c.curStart.Store(time.Now().UnixNano())
 	c.res.Evals++
 	c.curDesc = desc
 	c.all[Hash(desc)] = struct{}{}
+	return true
+}
+
+// SubBegin announces one input inside the current case (block). A worker death is
+// then attributed to that input, and only that input is skipped on the re-run.
+func (c *Ctx) SubBegin(input []byte) bool {
+	c.sub++
+	if c.skipSub[[2]int64{c.cur.Load(), c.sub}] {
+		return false
+	}
+	if c.cell != nil {
+		n := len(input)
+		if n > 4096 {
+			n = 4096
+		}
+		binary.LittleEndian.PutUint64(c.cell[8:], uint64(c.sub))
+		binary.LittleEndian.PutUint32(c.cell[cellSize-4100:], uint32(n))
+		copy(c.cell[cellSize-4096:], input[:n])
+	}
 	return true
 }
 
@@ -358,8 +381,15 @@ func workerMain(props map[string]*Prop, a []string) {
 	c := &Ctx{Prop: a[0], Tier: a[1], W: w, N: n, Seed: seed(), Deadline: time.Unix(dl, 0), Only: only,
 		skip: map[int64]bool{}, nt: map[uint64]struct{}{}, all: map[uint64]struct{}{}, viols: map[string]*VRec{}, out: bufio.NewWriter(os.Stdout)}
 	c.res.Outcomes, c.res.Dims, c.res.Counters = map[string]int64{}, map[string]int64{}, map[string]int64{}
+	c.skipSub = map[[2]int64]bool{}
 	if len(a) > 7 && a[7] != "" {
 		for _, s := range strings.Split(a[7], ",") {
+			if i := strings.IndexByte(s, '.'); i >= 0 {
+				k, _ := strconv.ParseInt(s[:i], 10, 64)
+				j, _ := strconv.ParseInt(s[i+1:], 10, 64)
+				c.skipSub[[2]int64{k, j}] = true
+				continue
+			}
 			k, _ := strconv.ParseInt(s, 10, 64)
 			c.skip[k] = true
 		}
@@ -447,20 +477,28 @@ func runWorker(self string, p *Prop, tier string, w, n int, deadline time.Time, 
 		}
 		// the worker died: attribute the death to the case in the progress cell
 		cell, _ := os.ReadFile(cellPath)
-		seq := int64(-1)
+		seq, sub := int64(-1), int64(0)
 		desc := ""
-		if len(cell) >= 12 {
+		if len(cell) >= cellSize {
 			u := binary.LittleEndian.Uint64(cell[0:])
 			if u != ^uint64(0) {
 				seq = int64(u)
-				l := int(binary.LittleEndian.Uint32(cell[8:]))
-				if l <= len(cell)-12 {
-					desc = string(cell[12 : 12+l])
+				sub = int64(binary.LittleEndian.Uint64(cell[8:]))
+				l := int(binary.LittleEndian.Uint32(cell[16:]))
+				if l <= len(cell)-20 {
+					desc = string(cell[20 : 20+l])
+				}
+				if sub > 0 {
+					il := int(binary.LittleEndian.Uint32(cell[cellSize-4100:]))
+					if il <= 4096 {
+						in := cell[cellSize-4096 : cellSize-4096+il]
+						desc = fmt.Sprintf(`{"block":%s,"input_hex":"%x"}`, jsonOrString(desc), in)
+					}
 				}
 			}
 		}
 		tail := string(stderrTail.Bytes())
-		if seq < 0 || attempt >= 40 {
+		if seq < 0 || attempt >= 60 {
 			wr.err = fmt.Sprintf("worker %d died outside any case (err=%v): %s", w, err, trunc(tail, 2000))
 			os.Remove(cellPath)
 			return wr
@@ -471,7 +509,11 @@ func runWorker(self string, p *Prop, tier string, w, n int, deadline time.Time, 
 		}
 		sigd := fatalSig(class, tail)
 		wr.crashes = append(wr.crashes, &VRec{Sig: sigd, Count: 1, Seq: seq, W: w, N: n, Desc: desc, Detail: trunc(tail, 3000)})
-		skips = append(skips, strconv.FormatInt(seq, 10))
+		if sub > 0 {
+			skips = append(skips, fmt.Sprintf("%d.%d", seq, sub))
+		} else {
+			skips = append(skips, strconv.FormatInt(seq, 10))
+		}
 		wr.res = nil
 		if only >= 0 {
 			os.Stderr.WriteString(tail)
